@@ -18,7 +18,7 @@
    - [insert_event]       the loop body of insertEvents with the
                           `affected == 0 -> continue` short-cut
    - [sub_select]/[query] buildEventQuery as relational algebra
-   - [sub_limit_of]       appendLimitQuery + goqu's Limit (MODEL-F7 below)
+   - [goqu_limit_of]      appendLimitQuery + goqu's Limit; [sub_limit_of] (MODEL-F7 below)
    - [insert_batch_faulty], [open_db], [reopen]   C14 *)
 From Moc Require Import Base Match.
 From Moc.Gen Require Import GenMsg GenSql.
@@ -337,16 +337,22 @@ Definition eff_limit (limit : option Z) (maxLimit : Z) : Z :=
   then Z.min maxLimit (to_uint (match limit with Some l => l | None => 0 end))
   else maxLimit.
 
-(* MODEL-F7 begin — appendLimitQuery's `if l != NoLimit { b = b.Limit(l) }`
-   together with goqu v9.19 SelectDataset.Limit:
-       if limit > 0 { SetLimit(limit) } else { ClearLimit() }
-   [None] = the generated SQL has no LIMIT clause.  So an effective limit of 0
-   yields NO limit: every matching row is returned (defect F7).
-   After the repair (a filter with `limit: 0` selects nothing) replace the
-   definition of [sub_limit_of] by the one in coq/fixed/Sql_F7.v.txt. *)
-Definition sub_limit_of (limit : option Z) (maxLimit : Z) : option Z :=
+(** appendLimitQuery's `if l != NoLimit { b = b.Limit(l) }` together with goqu
+    v9.19 SelectDataset.Limit:
+        if limit > 0 { SetLimit(limit) } else { ClearLimit() }
+    [None] = the generated SQL has no LIMIT clause.  An effective limit of 0
+    therefore yields NO limit. *)
+Definition goqu_limit_of (limit : option Z) (maxLimit : Z) : option Z :=
   let l := eff_limit limit maxLimit in
   if g_sql_has_limit l NoLimit then (if 0 <? l then Some l else None) else None.
+
+(* MODEL-F7 begin — the LIMIT of a filter's sub-select in buildEventQuery.
+   Pinned tree: just appendLimitQuery, so `limit: 0` returns every matching
+   row (defect F7).  After the repair (`if f.Limit != nil && *f.Limit == 0
+   { sub = sub.Where(goqu.L("0")) }`) this definition is replaced by
+   /verif/fixed/sql/apply_after_fix.py. *)
+Definition sub_limit_of (limit : option Z) (maxLimit : Z) : option Z :=
+  goqu_limit_of limit maxLimit.
 (* MODEL-F7 end *)
 
 Fixpoint firstnZ {A} (l : Z) (rows : list A) : list A :=
@@ -464,6 +470,6 @@ Definition query (s : db) (fs : list rfilter) (maxLimit : Z) : option (list even
                   | _ => filter (fun r => existsb (mem_key (r_key r)) subs) (d_events s)
                   end in
       let joined := sort_desc (fun rp => r_ts (fst rp)) (join_payloads s rows) in
-      let lim := sub_limit_of (Some (to_int64 maxLimit)) maxLimit in
+      let lim := goqu_limit_of (Some (to_int64 maxLimit)) maxLimit in
       Some (List.map (fun rp => event_of_row (fst rp) (snd rp)) (apply_limit lim joined))
   end.
